@@ -118,6 +118,19 @@ ASSUMPTIONS = [
     "connection'); the consequences (ValueError for FilterQuery / "
     "ContinueOnError) are accepted.  The opposite direction is not "
     "documented and is judged by the statement's last clause",
+    "an injected CIM_ERR_NOT_SUPPORTED / CIM_ERR_FAILED answer to the Open "
+    "request is 'the server does not support pull' for an undetermined "
+    "family (documented fallback, remembered), and CIM_ERR_NOT_SUPPORTED "
+    "also for a family that used pull before (raising it is accepted too); "
+    "the model's family flag follows the fallback as soon as the call went "
+    "on, however the iterator is consumed afterwards.  Later calls of the "
+    "family then use the traditional operation: ValueError for FilterQuery "
+    "/ ContinueOnError / ReturnQueryResultClass is the documented outcome "
+    "whether or not the call would otherwise fail with a CIMError, and "
+    "where two documented errors apply to one call (that ValueError and "
+    "the CIMError of the traditional operation; the CIMError of the "
+    "traditional operation and CONTINUATION_ON_ERROR_NOT_SUPPORTED) either "
+    "is accepted",
     "OperationTimeout is limited to None/0/1/40 (the mock refuses values "
     "above pywbem_mock.config.OPEN_MAX_TIMEOUT, the traditional operations "
     "have no such argument)",
@@ -656,7 +669,9 @@ class Pred:
         self.exc = exc            # exception class(es)
         self.code = code          # CIM status code or None
         self.why = why
-        self.also_code = also_code  # acceptable CIMError code besides ok
+        # acceptable CIMError code besides ok / besides the predicted error
+        # (two documented errors apply to the call: either is accepted)
+        self.also_code = also_code
 
     def __repr__(self):
         if self.kind == 'err':
@@ -963,21 +978,26 @@ class Machine:
             if query and kw['FilterQueryLanguage'] != 'DMTF:FQL':
                 # the mock's Open operations know DMTF:FQL only
                 return Pred('err', exc=CIMError, why='server-decides')
+            coe = COE_UNSUPPORTED if kw.get('ContinueOnError') else None
             if e[0] == 'err':
                 return Pred('err', exc=CIMError, code=e[1],
-                            why='same-error-as-traditional')
-            return Pred('ok', items=e[1],
-                        also_code=COE_UNSUPPORTED
-                        if kw.get('ContinueOnError') else None)
+                            why='same-error-as-traditional', also_code=coe)
+            return Pred('ok', items=e[1], also_code=coe)
+        # traditional fallback: ValueError for the arguments it cannot pass
+        # on is documented whether or not the traditional operation would
+        # fail as well; if it would, its CIMError is a documented outcome too
+        e = rec.e_trad
+        tcode = e[1] if e[0] == 'err' else None
         if self._has_filter(kw) and not query:
-            return Pred('err', exc=ValueError, why='FilterQuery-with-fallback')
+            return Pred('err', exc=ValueError, why='FilterQuery-with-fallback',
+                        also_code=tcode)
         if kw.get('ContinueOnError'):
             return Pred('err', exc=ValueError,
-                        why='ContinueOnError-with-fallback')
+                        why='ContinueOnError-with-fallback', also_code=tcode)
         if query and kw.get('ReturnQueryResultClass'):
             return Pred('err', exc=ValueError,
-                        why='ReturnQueryResultClass-with-fallback')
-        e = rec.e_trad
+                        why='ReturnQueryResultClass-with-fallback',
+                        also_code=tcode)
         if e[0] == 'err':
             return Pred('err', exc=CIMError, code=e[1],
                         why='same-error-as-traditional')
@@ -1029,6 +1049,22 @@ class Machine:
                     status.status_code == NOT_SUPPORTED):
             self.flags[rec.which] = False
             self.knowledge_changed = True
+            self.classes.add('family-unlearned-pull-by-falling-back')
+        inj = rec.inject
+        if rec.injected and inj['at'] == 0 and \
+                inj['what'] == NOT_SUPPORTED and \
+                self.init['use_pull'] is None and \
+                rec.flag_before is True and \
+                self.flags[rec.which] is True and not (
+                    isinstance(status, CIMError) and
+                    status.status_code == NOT_SUPPORTED):
+            # the same, the 'server without pull' being an injected
+            # CIM_ERR_NOT_SUPPORTED answer to the Open request: the call
+            # went on with the traditional operation, whatever is done with
+            # the iterator afterwards (exhausted, closed, dropped, suspended)
+            self.flags[rec.which] = False
+            self.knowledge_changed = True
+            self.classes.add('inject:open-error-means-fallback')
             self.classes.add('family-unlearned-pull-by-falling-back')
 
     def _advance1(self, rec, k):
@@ -1176,6 +1212,10 @@ class Machine:
     @staticmethod
     def _matches(pred, status, got):
         if pred.kind == 'err':
+            if pred.also_code is not None and \
+                    isinstance(status, CIMError) and \
+                    status.status_code == pred.also_code:
+                return True
             return isinstance(status, pred.exc) and (
                 pred.code is None or status.status_code == pred.code)
         if pred.kind == 'filter':
@@ -1499,6 +1539,13 @@ class Machine:
                 not (inj['mode'] == 'drop' and
                      rec.kwargs.get('ContinueOnError')):
             rec.inject = dict(inj)
+            if inj['at'] == 0 and up is None and (
+                    (flag is None and inj['what'] in (FAILED,
+                                                      NOT_SUPPORTED)) or
+                    (flag is True and inj['what'] == NOT_SUPPORTED)):
+                # the call goes on with the traditional operation: objects
+                # delivered before a close/drop/suspend are those
+                rec.alt = self._predict(rec, 'trad', self.enabled)
         # model of what the connection learns
         if up is None and flag is None and will_start and not rec.bad_moc:
             if rec.inject and rec.inject['at'] == 0:
